@@ -3,6 +3,8 @@
 //   S <hex|-> <k>             CalculateCRC(buf + k, len - k, CalculateCRC(buf, k))
 //   L <hex|-> <len> <init>    CalculateCRC(buf, len, init), "OOB" when len exceeds the supplied bytes (not called)
 //   FM <cap>                  framer capacity for the following lines
+//   ST <warn> <cap> <chunking> <hex>  one framer (WarnOnError(warn), capacity cap) fed the stream in chunks (all | bytes |
+//                             n1,n2,...), each chunk an exact-size block at a rotating alignment -> <len>#<seq>#<crc>@<off>;...
 //   B <hex>                   set the base message, print its analysis
 //   E <byteoff> <xorhex> ...  analysis of the base with each xorhex applied at its byteoff
 //   analysis: I=<IsValid 1|0|OOB> C1=<CalculateCRC(buffer)|OOB> F=<off:len;...|-> (messages the framer dispatched)
@@ -86,6 +88,9 @@ static std::string crc_everywhere(const std::vector<uint8_t>& v, uint32_t init, 
 
 static std::vector<std::string> g_frames;
 static const std::vector<uint8_t>* g_input = nullptr;
+static bool g_stream_format = false;
+static size_t g_case = 0;
+static size_t g_search_from = 0;
 static void on_msg(void*, const MessageHeader& header, const void* payload) {
   size_t n = sizeof(MessageHeader) + header.payload_size_bytes;
   std::vector<uint8_t> raw(n);
@@ -94,12 +99,13 @@ static void on_msg(void*, const MessageHeader& header, const void* payload) {
   long off = -1;
   for (size_t o = 0; g_input && o + n <= g_input->size(); ++o)
     if (memcmp(g_input->data() + o, raw.data(), n) == 0) { off = (long)o; break; }
-  g_frames.push_back(std::to_string(off) + ":" + std::to_string(n));
+  if (g_stream_format)
+    g_frames.push_back(std::to_string(n) + "#" + std::to_string(header.sequence_number) + "#" + std::to_string(header.crc) + "@" + std::to_string(off));
+  else
+    g_frames.push_back(std::to_string(off) + ":" + std::to_string(n));
 }
 
 static size_t g_cap = 131072;
-
-static size_t g_case = 0;
 
 static std::string analysis(const std::vector<uint8_t>& v) {
   std::string out;
@@ -197,6 +203,40 @@ int main() {
       else { std::vector<uint8_t> pre(v.begin(), v.begin() + len); printf("%s\n", crc_everywhere(pre, (uint32_t)init).c_str()); }
     } else if (cmd == "FM") {
       is >> g_cap; printf("ok\n");
+    } else if (cmd == "ST") {
+      // ST <warn 0|1> <capacity> <chunking all|bytes|n1,n2,..> <hex>: one framer fed the stream
+      int warn; size_t cap; std::string chunking;
+      is >> warn >> cap >> chunking >> h;
+      auto v = unhex(h);
+      std::vector<size_t> sizes;
+      if (chunking == "all") sizes.push_back(v.size() ? v.size() : 1);
+      else if (chunking == "bytes") sizes.push_back(1);
+      else { std::istringstream cs(chunking); std::string t; while (std::getline(cs, t, ',')) sizes.push_back(std::max(1, atoi(t.c_str()))); }
+      g_frames.clear(); g_input = &v; g_stream_format = true;
+      bool over = false;
+      {
+        FusionEngineFramer framer(cap);
+        framer.WarnOnError(warn != 0);
+        framer.SetMessageCallback(on_msg, nullptr);
+        size_t i = 0, k = 0;
+        while (i < v.size()) {
+          size_t n = std::min(sizes[k++ % sizes.size()], v.size() - i);
+          size_t al = (g_case++) % 8;
+          uint8_t* block = (uint8_t*)malloc(al + n);
+          memcpy(block + al, v.data() + i, n);
+          asan_hit = 0;
+          framer.OnData(block + al, n);
+          if (asan_hit) over = true;
+          free(block);
+          i += n;
+        }
+      }
+      g_stream_format = false;
+      std::string out;
+      for (size_t i = 0; i < g_frames.size(); ++i) out += (i ? ";" : "") + g_frames[i];
+      if (out.empty()) out = "-";
+      if (over) out += "!OVERREAD";
+      printf("%s\n", out.c_str());
     } else if (cmd == "B") {
       is >> h; base = unhex(h);
       printf("%s\n", analysis(base).c_str());
